@@ -1,6 +1,10 @@
 package app
 
-import "github.com/ludo-technologies/pyscn/domain"
+import (
+	"path/filepath"
+
+	"github.com/ludo-technologies/pyscn/domain"
+)
 
 // ResolveFilePaths resolves file paths for analysis.
 // If all paths are already files (not directories), returns them directly.
@@ -47,8 +51,9 @@ func ResolveFilePaths(
 	}
 
 	// If all paths are already files, no need to collect again
+	// (a file named more than once is still one file, as in CollectPythonFiles)
 	if allFiles {
-		return paths, nil
+		return uniquePaths(paths), nil
 	}
 
 	// Collect Python files from directories
@@ -63,4 +68,23 @@ func ResolveFilePaths(
 	}
 
 	return files, nil
+}
+
+// uniquePaths drops paths that name a file already in the list. Files are
+// identified by their cleaned absolute path; the first spelling is kept.
+func uniquePaths(paths []string) []string {
+	seen := make(map[string]struct{}, len(paths))
+	unique := make([]string, 0, len(paths))
+	for _, path := range paths {
+		key, err := filepath.Abs(path)
+		if err != nil {
+			key = filepath.Clean(path)
+		}
+		if _, dup := seen[key]; dup {
+			continue
+		}
+		seen[key] = struct{}{}
+		unique = append(unique, path)
+	}
+	return unique
 }
